@@ -3,7 +3,8 @@
    the matching-name discount.  Helper of C07Affinity.v *)
 From ArgMapper Require Import Base Graph GraphAlg GraphSpec Types Args Resolver ResolverSpec GenWeights.
 From ArgMapper.proofs Require Import C18DijkstraLemmas C19RefineMap C19RefineGraph C0213UnsatGraph
-     C0213UnsatClosure C0213UnsatBuild C0213UnsatPrune C07AffinityOps.
+     C0213UnsatClosure C0213UnsatBuild C0213UnsatPrune C18Dijkstra C06TotalDijkstra
+     C07AffinityOps C07AffinityDiscount C07AffinityDijkstra C0213UnsatPlan C0213UnsatReach.
 From Coq Require Import List Lia ZArith String.
 Import ListNotations.
 Set Implicit Arguments.
@@ -38,6 +39,12 @@ Proof.
     destruct l as [|y l]; [reflexivity|].
     assert (y = a) by (apply H; right; left; reflexivity). subst y.
     inversion ND as [|? ? NI _]. exfalso. apply NI. left. reflexivity.
+Qed.
+
+Lemma filter_none {A} (p : A -> bool) (l : list A) : (forall x, In x l -> p x = false) -> filter p l = [].
+Proof.
+  induction l as [|x l IH]; intros H; simpl; [reflexivity|].
+  rewrite (H x (or_introl eq_refl)). apply IH. intros y I. apply H. right. exact I.
 Qed.
 
 Lemma g_root_wf : wf_graph g_root.
@@ -139,6 +146,41 @@ Lemma ins_ops_nf l k : (forall kv, In kv l -> is_func (fst kv) = false) ->
 Proof.
   unfold ins_ops. intros Hl [H|H]; apply in_flat_map in H; destruct H as (x & Ix & [H|[H|[]]]); try discriminate.
   inversion H; subst. apply Hl. exact Ix.
+Qed.
+
+(* ---------- tapes and maps ---------- *)
+Lemma take_perm_single (site : N) (x : vkey) (t t' : tape vkey) ks :
+  take_perm site [x] t = Ok (ks, t') -> ks = [x].
+Proof.
+  unfold take_perm. destruct (take_site site t) as [[ks0 t0]|]; [|discriminate].
+  destruct (permb ks0 [x]) eqn:Pm; [|discriminate]. intros Q. inversion Q; subst ks0 t0. clear Q.
+  destruct ks as [|y r]; [discriminate Pm|]. cbn [permb memb] in Pm.
+  destruct (Base.eqb_spec y x) as [->|Ne]; [|discriminate Pm]. cbn [orb andb remove1] in Pm.
+  rewrite Base.eqb_refl in Pm. destruct r; [reflexivity|discriminate Pm].
+Qed.
+
+Lemma lookup_fold_insert (l : list (vkey * value)) : forall (m0 : amap vkey value) k,
+  NoDup (map fst l) ->
+  lookup k (fold_left (fun m kv => insert (fst kv) (snd kv) m) l m0) =
+  match lookup k l with Some v => Some v | None => lookup k m0 end.
+Proof.
+  induction l as [|[k0 v0] l IH]; intros m0 k ND; cbn [fold_left]; [reflexivity|].
+  cbn [map fst] in ND. inversion ND as [|? ? NI ND']; subst.
+  rewrite (IH _ _ ND'). cbn [lookup fst snd]. rewrite lookup_insert.
+  destruct (Base.eqb_spec k k0) as [->|Ne]; [|reflexivity].
+  assert (Q : lookup k0 l = None).
+  { apply not_in_keys_lookup. exact NI. }
+  rewrite Q. reflexivity.
+Qed.
+
+Lemma lookup_map_kval (T : ty) (l : list (string * value)) m :
+  lookup (KVal m T EmptyString) (map (fun kv => (KVal (fst kv) T EmptyString, snd kv)) l) = lookup m l.
+Proof.
+  induction l as [|[m0 v0] l IH]; cbn [map lookup fst snd]; [reflexivity|].
+  rewrite IH.
+  assert (E : Base.eqb (KVal m T EmptyString) (KVal m0 T EmptyString) = Base.eqb m m0).
+  { cbn. rewrite Z.eqb_refl, !andb_true_r. reflexivity. }
+  rewrite E. reflexivity.
 Qed.
 
 Section Family.
@@ -566,17 +608,17 @@ Section Family.
   Qed.
 
   (* ---------- full_graph computes GG ---------- *)
-  Variable b : builder.
-  Hypothesis Hb1 : b_named b = named.
-  Hypothesis Hb2 : b_namedsub b = [].
-  Hypothesis Hb3 : b_typed b = [].
-  Hypothesis Hb4 : b_typedsub b = [].
-  Hypothesis Hb5 : b_convs b = cs.
-  Hypothesis Hb6 : b_gens b = [].
+  Variable bd : builder.
+  Hypothesis Hb1 : b_named bd = named.
+  Hypothesis Hb2 : b_namedsub bd = [].
+  Hypothesis Hb3 : b_typed bd = [].
+  Hypothesis Hb4 : b_typedsub bd = [].
+  Hypothesis Hb5 : b_convs bd = cs.
+  Hypothesis Hb6 : b_gens bd = [].
   Hypothesis Hnd : NoDup (map fst named).
   Hypothesis Hc0 : exists c0, In c0 cs.
 
-  Lemma input_vertices_eq : input_vertices b = ins.
+  Lemma input_vertices_eq : input_vertices bd = ins.
   Proof.
     unfold input_vertices. rewrite Hb1, Hb2, Hb3, Hb4. simpl. rewrite app_nil_r.
     unfold ins. apply map_ext_in. intros [m v] I. simpl. destruct (Hnm m v I) as [_ ->]. reflexivity.
@@ -595,11 +637,14 @@ Section Family.
   Qed.
 
   Lemma KOut_fvert t s : fvert (KOut t s) -> KOut t s = OT \/ KOut t s = OU.
-  Proof. intros H. inversion H; auto. Qed.
+  Proof. intros H. remember (KOut t s) as k eqn:E. destruct H; try discriminate E; auto. Qed.
   Lemma KArg_fvert t s : fvert (KArg t s) -> KArg t s = AT \/ KArg t s = AU.
-  Proof. intros H. inversion H; auto. Qed.
+  Proof. intros H. remember (KArg t s) as k eqn:E. destruct H; try discriminate E; auto. Qed.
   Lemma KVal_fvert m t s : fvert (KVal m t s) -> KVal m t s = NU \/ (exists v, In (m, v) named /\ t = T /\ s = EmptyString).
-  Proof. intros H. inversion H; subst; eauto. Qed.
+  Proof.
+    intros H. remember (KVal m t s) as k eqn:E. destruct H; try discriminate E; auto.
+    inversion E; subst. right. eauto.
+  Qed.
 
   Lemma steps_eq valued :
     step_arg_sub (step_named_sub valued (step_ifaces u (step_args (step_values g3)))) = GG.
@@ -616,7 +661,7 @@ Section Family.
 
   Definition FG (t : tape vkey) : fgraph := mkFG GG vals0 fk (g_out_keys g1 fk) (map fst ins) cs [] t.
 
-  Lemma full_graph_eq t : full_graph u f b false t = Ok (inl (FG t), []).
+  Lemma full_graph_eq t : full_graph u f bd false t = Ok (inl (FG t), []).
   Proof.
     unfold full_graph. cbv zeta. fold g_root. rewrite input_vertices_eq, Hb5, Hb6. cbn [bind].
     unfold run_gens. cbn [fold_left]. rewrite g3_eq, steps_eq. reflexivity.
@@ -637,7 +682,8 @@ Section Family.
       try (split; [econstructor; eauto|split; [discriminate|intros _; discriminate]]).
     destruct OO_cases as [(E & Q & _)|(E & Q & _)]; rewrite Q.
     - split; [constructor|]. split; [unfold OU, OT; intros X; inversion X; apply HTU; auto|].
-      intros E2. exfalso. rewrite E in E2. subst n. discriminate.
+      intros E2. exfalso. rewrite E in E2.
+      assert (X : String.eqb n EmptyString = true) by (rewrite <- E2; reflexivity). rewrite HnE in X. discriminate.
     - split; [constructor|]. split; [discriminate|intros _; discriminate].
   Qed.
 
@@ -647,11 +693,11 @@ Section Family.
   Lemma keep_iff k : In k (keepset GG fk) <-> pvert k.
   Proof.
     split.
-    - revert k. apply (keep_ind GG_wf (P := pvert)).
+    - revert k. apply (@keep_ind GG fk GG_wf pvert).
       + split; [constructor|split; [discriminate|intros _; discriminate]].
       + intros a x _ _ E. destruct (ew GG x a) as [w|] eqn:Q; [|contradiction E; reflexivity].
         apply GG_edges in Q. apply (fedge_src Q).
-    - pose proof (keep_root fk GG_wf GG_root) as KR.
+    - pose proof (@keep_root GG fk GG_wf GG_root) as KR.
       pose proof (fun a x => @keep_closed GG fk GG_wf GG_root a x) as KC.
       destruct named_n as (vn & In').
       assert (KI : forall m v, In (m, v) named -> In (KVal m T EmptyString) (keepset GG fk)).
@@ -691,25 +737,25 @@ Section Family.
   Lemma PG_vtx k : pvert k -> vtx PG k = vtx GG k.
   Proof.
     intros P. destruct (pruned_spec fk GG_wf) as (_ & Hv & _). unfold PG. rewrite Hv.
-    apply keep_iff in P. apply membT in P. rewrite P. reflexivity.
+    apply (proj2 (keep_iff k)) in P. apply membT in P. rewrite P. reflexivity.
   Qed.
 
   Lemma PG_vtx_none k : ~ pvert k -> vtx PG k = None.
   Proof.
     intros P. destruct (pruned_spec fk GG_wf) as (_ & Hv & _). unfold PG. rewrite Hv.
     destruct (memb k (keepset GG fk)) eqn:M; [|reflexivity].
-    exfalso. apply P. apply keep_iff. apply membT. exact M.
+    exfalso. apply P. apply (proj1 (keep_iff k)). apply membT. exact M.
   Qed.
 
   Lemma PG_edges a b w : ew PG a b = Some w <-> fedge a b w /\ pvert a /\ pvert b.
   Proof.
     destruct (pruned_spec fk GG_wf) as (_ & _ & He). unfold PG. rewrite He.
     destruct (memb a (keepset GG fk)) eqn:Ma; destruct (memb b (keepset GG fk)) eqn:Mb; simpl.
-    - apply membT in Ma. apply membT in Mb. apply keep_iff in Ma. apply keep_iff in Mb.
+    - apply membT in Ma. apply membT in Mb. apply (proj1 (keep_iff a)) in Ma. apply (proj1 (keep_iff b)) in Mb.
       rewrite GG_edges. tauto.
-    - split; [discriminate|]. intros (_ & _ & P). apply keep_iff in P. apply membT in P. congruence.
-    - split; [discriminate|]. intros (_ & P & _). apply keep_iff in P. apply membT in P. congruence.
-    - split; [discriminate|]. intros (_ & P & _). apply keep_iff in P. apply membT in P. congruence.
+    - split; [discriminate|]. intros (_ & _ & P). apply (proj2 (keep_iff b)) in P. apply membT in P. congruence.
+    - split; [discriminate|]. intros (_ & P & _). apply (proj2 (keep_iff a)) in P. apply membT in P. congruence.
+    - split; [discriminate|]. intros (_ & P & _). apply (proj2 (keep_iff a)) in P. apply membT in P. congruence.
   Qed.
 
   Lemma pvert_NU : pvert NU.
@@ -733,8 +779,604 @@ Section Family.
     fold PG.
     assert (E : unsat_of (mkFG GG vals0 fk (g_out_keys g1 fk) (map fst ins) cs [] t) = []).
     { unfold unsat_of. cbn [fg_g fg_target fg_freq]. fold PG.
-      induction (g_out_keys g1 fk) as [|k l IH] eqn:EL in g1_out |- *; [reflexivity|].
-      admit. }
+      apply filter_none. intros k Ik. apply g1_out in Ik. subst k.
+      apply negb_false_iff. apply mem_vtx. rewrite (PG_vtx pvert_NU). apply present_true. apply GG_present. constructor. }
     rewrite E. reflexivity.
-  Admitted.
+  Qed.
+
+  (* ---------- the reversed, discounted graph the planner searches ---------- *)
+  Hypothesis Hlen : (List.length named <= 999)%nat.
+  Hypothesis Hcl : (List.length cs <= 2)%nat.
+
+  Definition cgD : rgraph := discount PG NU.
+  Definition HH : rgraph := g_reverse cgD.
+
+  Lemma cgD_facts :
+    wf_graph cgD /\ (forall x, vtx cgD x = vtx PG x) /\ g_vertex_keys cgD = g_vertex_keys PG /\
+    (forall a b, ew cgD a b = match ew PG a b with
+                              | Some w => if isn n b then Some w_matching_name else Some w
+                              | None => None end).
+  Proof. apply (discount_exact n U EmptyString PG_wf). Qed.
+
+  Lemma HH_wf : wf_graph HH.
+  Proof. apply (reverse_spec (proj1 cgD_facts)). Qed.
+
+  Lemma HH_edge a b w :
+    edge HH a b w <->
+    exists w0, fedge b a w0 /\ pvert a /\ pvert b /\ w = (if isn n a then w_matching_name else w0).
+  Proof.
+    change (edge HH a b w) with (ew HH a b = Some w).
+    destruct cgD_facts as (Wc & _ & _ & He).
+    destruct (reverse_spec Wc) as (_ & _ & Hr). unfold HH. rewrite Hr, He. split.
+    - destruct (ew PG b a) as [w0|] eqn:Q; [|discriminate].
+      apply PG_edges in Q. destruct Q as (Fe & Pb & Pa). intros Q.
+      exists w0. split; [exact Fe|]. split; [exact Pa|]. split; [exact Pb|].
+      destruct (isn n a); inversion Q; reflexivity.
+    - intros (w0 & Fe & Pa & Pb & ->).
+      assert (Q : ew PG b a = Some w0) by (apply PG_edges; auto). rewrite Q.
+      destruct (isn n a); reflexivity.
+  Qed.
+
+  Lemma PG_vtx_pvert k : vtx PG k <> None -> pvert k.
+  Proof.
+    intros N0. destruct (pruned_spec fk GG_wf) as (_ & Hv & _). unfold PG in N0. rewrite Hv in N0.
+    destruct (memb k (keepset GG fk)) eqn:M; [|contradiction N0; reflexivity].
+    apply (proj1 (keep_iff k)). apply membT. exact M.
+  Qed.
+
+  Lemma pvert_vtx k : pvert k -> vtx PG k <> None.
+  Proof.
+    intros P. rewrite (PG_vtx P). apply present_true. apply GG_present. apply P.
+  Qed.
+
+  Definition VL : list vkey :=
+    [KRoot; fk; NU; AT; OT; AU; OU] ++ map (fun c => KFunc (fn_type c)) cs ++
+    map (fun nv => KVal (fst nv) T EmptyString) named.
+
+  Lemma fvert_VL k : fvert k -> In k VL.
+  Proof.
+    intros Hk. unfold VL. destruct Hk as [| | |m v I|c Ic| | | |]; try (simpl; tauto).
+    - apply in_or_app. right. apply in_or_app. right. apply in_map_iff. exists (m, v). auto.
+    - apply in_or_app. right. apply in_or_app. left. apply in_map_iff. exists c. auto.
+  Qed.
+
+  Lemma PG_keys_len : (List.length (g_vertex_keys PG) <= 1008)%nat.
+  Proof.
+    assert (L : (List.length (g_vertex_keys PG) <= List.length VL)%nat).
+    { apply NoDup_incl_length; [apply (wf_hash_nodup PG_wf)|].
+      intros k Ik. apply in_vertex_keys in Ik. apply fvert_VL. apply (proj1 (@PG_vtx_pvert k Ik)). }
+    set (lk := List.length (g_vertex_keys PG)) in *.
+    unfold VL in L. rewrite !app_length, !map_length in L. cbn [List.length] in L. lia.
+  Qed.
+
+  Lemma HH_keys : g_vertex_keys HH = g_vertex_keys PG.
+  Proof. destruct cgD_facts as (_ & _ & Hk & _). unfold HH. rewrite <- Hk. reflexivity. Qed.
+
+  Lemma HH_small : 20 * (Z.of_nat (List.length (g_vertex_keys HH)) + 1) < INF.
+  Proof. rewrite HH_keys. pose proof PG_keys_len. unfold INF. lia. Qed.
+
+  Lemma HH_vertex k : vertex HH k <-> pvert k.
+  Proof.
+    unfold vertex. change (keys (ghash HH)) with (g_vertex_keys HH). rewrite HH_keys, in_vertex_keys.
+    split; [apply PG_vtx_pvert|apply pvert_vtx].
+  Qed.
+
+  Lemma pvert_root : pvert KRoot.
+  Proof. split; [constructor|split; [discriminate|intros _; discriminate]]. Qed.
+  Lemma pvert_in m v : In (m, v) named -> pvert (KVal m T EmptyString).
+  Proof. intros I. split; [econstructor; eauto|split; [discriminate|intros _; discriminate]]. Qed.
+  Lemma pvert_AT : pvert AT.
+  Proof. split; [constructor|split; [discriminate|intros _; discriminate]]. Qed.
+  Lemma pvert_c c : In c cs -> pvert (KFunc (fn_type c)).
+  Proof. intros I. split; [constructor; auto|split; [discriminate|intros _; discriminate]]. Qed.
+  Lemma pvert_fk : pvert fk.
+  Proof. split; [constructor|split; [discriminate|intros _; discriminate]]. Qed.
+  Lemma OU_ne_OT : OU <> OT.
+  Proof. unfold OU, OT. intros X. inversion X. apply HTU. auto. Qed.
+  Lemma pvert_OO : pvert OO.
+  Proof.
+    destruct OO_cases as [(E & Q & _)|(E & Q & _)]; rewrite Q; [|apply pvert_NU].
+    split; [constructor|]. split; [apply OU_ne_OT|]. intros E2. exfalso. rewrite E in E2.
+    assert (X : String.eqb n EmptyString = true) by (rewrite <- E2; reflexivity). rewrite HnE in X. discriminate.
+  Qed.
+  Lemma pvert_OT : ~ pvert OT.
+  Proof. intros (_ & N0 & _). apply N0. reflexivity. Qed.
+
+  Lemma HH_wbound a b w : edge HH a b w -> -20 <= w <= 20.
+  Proof.
+    intros Ed. apply HH_edge in Ed. destruct Ed as (w0 & Fe & _ & _ & ->).
+    rewrite (fedge_wt Fe). destruct (isn n a); [unfold w_matching_name; lia|].
+    unfold wt. destruct b; destruct a; unfold w_normal, w_typed; lia.
+  Qed.
+
+  Lemma fedge_src_ne_root a b w : fedge a b w -> a <> KRoot.
+  Proof.
+    intros Hk. destruct Hk as [|m v I|c Ic|c Ic| | |m v I|m v I| |]; try discriminate.
+    destruct OO_cases as [(_ & Q & _)|(_ & Q & _)]; rewrite Q; discriminate.
+  Qed.
+
+  Lemma HH_src_in a w : ~ edge HH a KRoot w.
+  Proof.
+    intros Ed. apply HH_edge in Ed. destruct Ed as (w0 & Fe & _). apply (fedge_src_ne_root Fe). reflexivity.
+  Qed.
+
+  Lemma HH_isin m v : In (m, v) named -> isin HH KRoot (KVal m T EmptyString).
+  Proof.
+    intros I. split.
+    - apply HH_edge. exists w_normal. split; [econstructor; eauto|]. split; [apply pvert_root|].
+      split; [eapply pvert_in; eauto|reflexivity].
+    - intros a' w' Ed. apply HH_edge in Ed. destruct Ed as (w0 & Fe & Pa' & _ & ->).
+      remember (KVal m T EmptyString) as k eqn:Ek.
+      destruct Fe as [|m1 v1 I1|c Ic|c Ic| | |m1 v1 I1|m1 v1 I1| |]; try discriminate Ek.
+      + split; reflexivity.
+      + exfalso. destruct OO_cases as [(_ & Q & _)|(_ & Q & _)]; rewrite Q in Ek; [discriminate|].
+        unfold NU in Ek. inversion Ek. apply HTU. auto.
+      + exfalso. unfold NU in Ek. inversion Ek. apply HTU. auto.
+      + exfalso. apply (pvert_OT Pa').
+  Qed.
+
+  Lemma HH_A_in a w :
+    edge HH a AT w -> isin HH KRoot a /\ ((a = NT /\ w = -1) \/ (a <> NT /\ w = 5)).
+  Proof.
+    intros Ed. apply HH_edge in Ed. destruct Ed as (w0 & Fe & Pa & _ & ->).
+    remember AT as k eqn:Ek.
+    destruct Fe as [|m1 v1 I1|c Ic|c Ic| | |m1 v1 I1|m1 v1 I1| |]; try discriminate Ek.
+    - exfalso. destruct OO_cases as [(_ & Q & _)|(_ & Q & _)]; rewrite Q in Ek; discriminate.
+    - exfalso. unfold AU, AT in Ek. inversion Ek. apply HTU. auto.
+    - split; [eapply HH_isin; eauto|]. cbn [isn].
+      destruct (String.eqb m1 n) eqn:En.
+      + apply String.eqb_eq in En. subst m1. left. split; reflexivity.
+      + right. split; [|reflexivity]. unfold NT. intros X. inversion X. subst m1.
+        rewrite String.eqb_refl in En. discriminate.
+    - exfalso. apply (pvert_OT Pa).
+    - exfalso. unfold AU, AT in Ek. inversion Ek. apply HTU. auto.
+  Qed.
+
+  Lemma HH_NA : edge HH NT AT (-1).
+  Proof.
+    destruct named_n as (vn & In').
+    apply HH_edge. exists w_typed. split; [apply (fe_at_in n vn In')|]. split; [apply (pvert_in n vn In')|].
+    split; [apply pvert_AT|]. cbn [NT isn]. rewrite String.eqb_refl. reflexivity.
+  Qed.
+
+  Lemma HH_root : vertex HH KRoot.
+  Proof. apply HH_vertex. apply pvert_root. Qed.
+
+  (* in-edges of the other vertices of the plan *)
+  Lemma HH_c_in c a w : In c cs -> edge HH a (KFunc (fn_type c)) w ->
+    a = inkey c /\ w = (if isn n (inkey c) then w_matching_name else inw c).
+  Proof.
+    intros Ic Ed. apply HH_edge in Ed. destruct Ed as (w0 & Fe & Pa & _ & ->).
+    remember (KFunc (fn_type c)) as k eqn:Ek.
+    destruct Fe as [|m1 v1 I1|c1 Ic1|c1 Ic1| | |m1 v1 I1|m1 v1 I1| |]; try discriminate Ek.
+    - exfalso. apply (fk_ne_c c Ic). symmetry. exact Ek.
+    - inversion Ek as [E1]. rewrite (@NoDup_map_inj _ _ fn_type cs c1 c Hcnd Ic1 Ic E1). split; reflexivity.
+    - exfalso. destruct OO_cases as [(_ & Q & _)|(_ & Q & _)]; rewrite Q in Ek; discriminate.
+  Qed.
+
+  Lemma HH_c_edge c : In c cs ->
+    edge HH (inkey c) (KFunc (fn_type c)) (if isn n (inkey c) then w_matching_name else inw c).
+  Proof.
+    intros Ic. apply HH_edge. exists (inw c). split; [apply (fe_cin c Ic)|].
+    split; [|split; [apply (pvert_c c Ic)|reflexivity]].
+    destruct named_n as (vn & In').
+    destruct (inkey_cases c Ic) as [[Q _]|[Q _]]; rewrite Q; [apply pvert_AT|apply (pvert_in n vn In')].
+  Qed.
+
+  Lemma isn_OO : isn n OO = false \/ OO = NU.
+  Proof. destruct OO_cases as [(_ & Q & _)|(_ & Q & _)]; rewrite Q; [left; reflexivity|right; reflexivity]. Qed.
+
+  Lemma HH_OO_in a w : edge HH a OO w -> exists c, In c cs /\ a = KFunc (fn_type c) /\ w = wo.
+  Proof.
+    intros Ed. apply HH_edge in Ed. destruct Ed as (w0 & Fe & Pa & _ & ->).
+    remember OO as k eqn:Ek.
+    destruct Fe as [|m1 v1 I1|c1 Ic1|c1 Ic1| | |m1 v1 I1|m1 v1 I1| |];
+      try (exfalso; destruct OO_cases as [(_ & Q & _)|(_ & Q & _)]; rewrite Q in Ek; discriminate Ek).
+    - exfalso. destruct OO_cases as [(_ & Q & _)|(_ & Q & _)]; rewrite Q in Ek; [discriminate Ek|].
+      unfold NU in Ek. inversion Ek. apply HTU. auto.
+    - exists c1. split; [exact Ic1|]. split; reflexivity.
+    - exfalso. destruct OO_cases as [(_ & Q & _)|(E & Q & _)]; rewrite Q in Ek; [discriminate Ek|].
+      destruct Pa as (_ & _ & N2). apply (N2 E). reflexivity.
+    - exfalso. destruct OO_cases as [(_ & Q & _)|(_ & Q & _)]; rewrite Q in Ek; [discriminate Ek|].
+      unfold NU in Ek. inversion Ek. apply HTU. auto.
+  Qed.
+
+  Lemma HH_OO_edge c : In c cs -> edge HH (KFunc (fn_type c)) OO wo.
+  Proof.
+    intros Ic. apply HH_edge. exists wo. split; [apply (fe_cout c Ic)|].
+    split; [apply (pvert_c c Ic)|]. split; [apply pvert_OO|reflexivity].
+  Qed.
+
+  (* NU when the result is type-only: its only in-neighbour is OU *)
+  Lemma HH_NU_in a w : onm = EmptyString -> edge HH a NU w -> a = OU.
+  Proof.
+    intros Eo Ed. apply HH_edge in Ed. destruct Ed as (w0 & Fe & Pa & _ & ->).
+    assert (QO : OO = OU).
+    { destruct OO_cases as [(_ & Q & _)|(E & _ & _)]; [exact Q|]. exfalso. rewrite Eo in E.
+      assert (X : String.eqb n EmptyString = true) by (rewrite <- E; reflexivity). rewrite HnE in X. discriminate. }
+    remember NU as k eqn:Ek.
+    destruct Fe as [|m1 v1 I1|c1 Ic1|c1 Ic1| | |m1 v1 I1|m1 v1 I1| |]; try discriminate Ek; try reflexivity.
+    - exfalso. unfold NU in Ek. inversion Ek. apply HTU. auto.
+    - exfalso. rewrite QO in Ek. discriminate.
+    - exfalso. unfold NU in Ek. inversion Ek. apply HTU. auto.
+  Qed.
+
+  Lemma HH_NU_edge : onm = EmptyString -> edge HH OU NU w_typed.
+  Proof.
+    intros Eo. apply HH_edge. exists w_typed. split; [apply fe_nu_ou|].
+    assert (QO : OO = OU).
+    { destruct OO_cases as [(_ & Q & _)|(E & _ & _)]; [exact Q|]. exfalso. rewrite Eo in E.
+      assert (X : String.eqb n EmptyString = true) by (rewrite <- E; reflexivity). rewrite HnE in X. discriminate. }
+    split; [rewrite <- QO; apply pvert_OO|]. split; [apply pvert_NU|]. reflexivity.
+  Qed.
+
+  (* ---------- the plan for the single requirement NU ---------- *)
+  Variable csel : fdecl.
+  Hypothesis Hsel : In csel cs.
+  Definition CS : vkey := KFunc (fn_type csel).
+  Definition mid : list vkey := match inkey csel with KArg _ _ => [AT] | _ => [] end.
+  Definition otail : list vkey := if String.eqb onm EmptyString then [OU; NU] else [NU].
+  Definition the_path : list vkey := [KRoot; NT] ++ mid ++ [CS] ++ otail.
+
+  Definition selected (p : amap vkey vkey) : Prop :=
+    lookup OO p = Some CS /\ lookup CS p = Some (inkey csel) /\ (inkey csel = AT -> lookup AT p = Some NT).
+
+  Lemma reach_edge a b0 w : GraphSpec.reach HH KRoot a -> edge HH a b0 w -> GraphSpec.reach HH KRoot b0.
+  Proof.
+    intros (pth & w0 & Wk) Ed. exists (pth ++ [b0]), (w0 + w).
+    eapply walk_snoc; eauto. apply (edge_vertices HH_wf Ed).
+  Qed.
+
+  Lemma chain_snoc (p : amap vkey vkey) u0 v l : chain p u0 l -> lookup v p = Some u0 -> chain p v (l ++ [v]).
+  Proof. intros C Q. eapply chain_step; eauto. Qed.
+
+  Lemma chain_path p : fin_facts HH KRoot p -> selected p -> chain p NU the_path.
+  Proof.
+    intros (P0 & Pe & Pr) (S1 & S2 & S3).
+    destruct named_n as (vn & In').
+    assert (R0 : GraphSpec.reach HH KRoot KRoot) by (exists [KRoot], 0; constructor; apply HH_root).
+    assert (RN : GraphSpec.reach HH KRoot NT) by (apply (reach_edge R0 (proj1 (HH_isin n vn In')))).
+    assert (P1 : lookup NT p = Some KRoot).
+    { destruct (Pr NT RN ltac:(discriminate)) as (x & Q). destruct (Pe _ _ Q) as (w & Ed).
+      destruct (proj2 (HH_isin n vn In') _ _ Ed) as [-> _]. exact Q. }
+    assert (C1 : chain p NT ([KRoot] ++ [NT])) by (apply chain_snoc with (u0 := KRoot); [constructor; exact P0|exact P1]).
+    assert (RK : GraphSpec.reach HH KRoot (inkey csel)).
+    { destruct (inkey_cases csel Hsel) as [[Q _]|[Q _]]; rewrite Q; [|exact RN]. apply (reach_edge RN HH_NA). }
+    assert (RC : GraphSpec.reach HH KRoot CS) by (apply (reach_edge RK (HH_c_edge csel Hsel))).
+    assert (RO : GraphSpec.reach HH KRoot OO) by (apply (reach_edge RC (HH_OO_edge csel Hsel))).
+    assert (C2 : chain p CS (([KRoot] ++ [NT]) ++ mid ++ [CS])).
+    { unfold mid. destruct (inkey_cases csel Hsel) as [[Q _]|[Q _]].
+      - rewrite Q in S2 |- *. unfold AT at 1. cbn [app]. change [KRoot; NT; AT; CS] with (([KRoot; NT] ++ [AT]) ++ [CS]).
+        apply chain_snoc with (u0 := AT); [|exact S2]. apply chain_snoc with (u0 := NT); [exact C1|apply S3; exact Q].
+      - rewrite Q in S2 |- *. unfold NT at 2. cbn [app]. change [KRoot; NT; CS] with ([KRoot; NT] ++ [CS]).
+        apply chain_snoc with (u0 := NT); [exact C1|exact S2]. }
+    assert (C3 : chain p OO ((([KRoot] ++ [NT]) ++ mid ++ [CS]) ++ [OO])) by (apply chain_snoc with (u0 := CS); assumption).
+    unfold the_path, otail.
+    destruct OO_cases as [(Eo & Q & _)|(Eo & Q & _)].
+    - rewrite Eo. cbn [String.eqb]. rewrite Q in C3, RO.
+      assert (RU : GraphSpec.reach HH KRoot NU) by (apply (reach_edge RO (HH_NU_edge Eo))).
+      assert (P5 : lookup NU p = Some OU).
+      { destruct (Pr NU RU ltac:(discriminate)) as (x & Qx). destruct (Pe _ _ Qx) as (w & Ed).
+        rewrite (HH_NU_in Eo Ed) in Qx. exact Qx. }
+      replace ([KRoot; NT] ++ mid ++ [CS] ++ [OU; NU]) with (((([KRoot] ++ [NT]) ++ mid ++ [CS]) ++ [OU]) ++ [NU]).
+      + apply chain_snoc with (u0 := OU); assumption.
+      + cbn [app]. rewrite <- !app_assoc. reflexivity.
+    - rewrite Eo, HnE. rewrite Q in C3.
+      replace ([KRoot; NT] ++ mid ++ [CS] ++ [NU]) with ((([KRoot] ++ [NT]) ++ mid ++ [CS]) ++ [NU]); [exact C3|].
+      cbn [app]. rewrite <- !app_assoc. reflexivity.
+  Qed.
+
+  Lemma the_path_len : (List.length the_path <= 6)%nat.
+  Proof.
+    unfold the_path, mid, otail. rewrite !app_length.
+    destruct (inkey csel); destruct (String.eqb onm EmptyString); simpl; lia.
+  Qed.
+
+  Lemma the_path_no_fk v : In v the_path -> v <> fk.
+  Proof.
+    unfold the_path, mid, otail. rewrite !in_app_iff. intros [I|[I|[I|I]]].
+    - destruct I as [<-|[<-|[]]]; discriminate.
+    - destruct (inkey csel) as [|ft0|n0 t0 s0|t0 s0|t0 s0]; [destruct I|destruct I|destruct I| |destruct I].
+      destruct I as [<-|[]]. discriminate.
+    - destruct I as [<-|[]]. apply fk_ne_c. exact Hsel.
+    - destruct (String.eqb onm EmptyString); [destruct I as [<-|[<-|[]]]|destruct I as [<-|[]]]; discriminate.
+  Qed.
+
+  Lemma NU_ne_NT : NU <> NT.
+  Proof. unfold NU, NT. intros X. inversion X. apply HTU. auto. Qed.
+  Lemma AU_ne_AT : AU <> AT.
+  Proof. unfold AU, AT. intros X. inversion X. apply HTU. auto. Qed.
+
+  Lemma PG_keys_ge : (7 <= List.length (g_vertex_keys PG))%nat.
+  Proof.
+    destruct named_n as (vn & In').
+    assert (ND : NoDup [KRoot; fk; NU; NT; AT; CS; AU]).
+    { pose proof NU_ne_NT. pose proof AU_ne_AT. pose proof (fk_ne_c csel Hsel).
+      repeat constructor; simpl; intuition (try discriminate; try congruence). }
+    change 7%nat with (List.length [KRoot; fk; NU; NT; AT; CS; AU]).
+    apply NoDup_incl_length; [exact ND|].
+    intros k Ik. apply in_vertex_keys. apply pvert_vtx.
+    assert (pvert AU) by (split; [constructor|split; [discriminate|intros _; discriminate]]).
+    simpl in Ik. destruct Ik as [<-|[<-|[<-|[<-|[<-|[<-|[<-|[]]]]]]]];
+      [apply pvert_root|apply pvert_fk|apply pvert_NU|apply (pvert_in n vn In')|apply pvert_AT|apply (pvert_c csel Hsel)|assumption].
+  Qed.
+
+  Hypothesis Hdij : forall pops d p, dijkstra HH KRoot pops = Ok (d, p) -> selected p /\ fin_facts HH KRoot p.
+
+  Lemma plan_eq s path bad s' :
+    plan PG false NU s = Ok (path, bad, s') ->
+    path = the_path /\ bad = existsb (fun v => memb v (s_inprog s)) the_path /\
+    exists t', s' = add_input (set_tape s t') NT.
+  Proof.
+    unfold plan. change (discount PG NU) with cgD. change (g_reverse cgD) with HH.
+    unfold dijkstra_t.
+    destruct (take_pops (List.length (g_vertex_keys HH)) (s_tape s)) as [[pops t']| | |]; cbn [bind]; try discriminate.
+    destruct (dijkstra HH KRoot pops) as [[d p]| | |] eqn:Dj; cbn [bind]; try discriminate.
+    destruct (Hdij _ Dj) as [Sel FF].
+    pose proof (chain_path FF Sel) as Ch.
+    unfold edge_to_path.
+    rewrite (etp_chain Ch).
+    2:{ destruct cgD_facts as (_ & _ & Hk & _). rewrite Hk. pose proof PG_keys_ge. pose proof the_path_len. lia. }
+    rewrite app_nil_r. cbn [bind].
+    assert (Inp : match the_path with KRoot :: x :: _ => x | x :: _ => x | [] => NU end = NT) by reflexivity.
+    rewrite Inp. intros Q. inversion Q. split; [reflexivity|]. split; [reflexivity|]. exists t'. reflexivity.
+  Qed.
+
+  (* ---------- neighbourhoods in the pruned graph ---------- *)
+  Lemma PG_out_fk : g_out_keys PG fk = [NU].
+  Proof.
+    apply nodup_singleton.
+    - unfold g_out_keys, inner. destruct (lookup fk (gout PG)) as [i|] eqn:Q; [|constructor].
+      apply (wf_inner_out_nodup PG_wf _ Q).
+    - intros x. rewrite in_out_keys. split.
+      + intros N0. destruct (ew PG fk x) as [w|] eqn:Q; [|contradiction N0; reflexivity].
+        apply PG_edges in Q. destruct Q as (Fe & _ & _).
+        remember fk as k eqn:Ek.
+        destruct Fe as [|m1 v1 I1|c1 Ic1|c1 Ic1| | |m1 v1 I1|m1 v1 I1| |]; try discriminate Ek; try reflexivity.
+        * exfalso. apply (fk_ne_c c1 Ic1). exact Ek.
+        * exfalso. destruct OO_cases as [(_ & Q & _)|(_ & Q & _)]; rewrite Q in Ek; discriminate.
+      + intros ->. assert (Q : ew PG fk NU = Some w_normal).
+        { apply PG_edges. split; [constructor|]. split; [apply pvert_fk|apply pvert_NU]. }
+        rewrite Q. discriminate.
+  Qed.
+
+  Lemma pvert_inkey c : In c cs -> pvert (inkey c).
+  Proof.
+    intros Ic. destruct named_n as (vn & In').
+    destruct (inkey_cases c Ic) as [[Q _]|[Q _]]; rewrite Q; [apply pvert_AT|apply (pvert_in n vn In')].
+  Qed.
+
+  Lemma PG_out_CS : g_out_keys PG CS = [inkey csel].
+  Proof.
+    apply nodup_singleton.
+    - unfold g_out_keys, inner. destruct (lookup CS (gout PG)) as [i|] eqn:Q; [|constructor].
+      apply (wf_inner_out_nodup PG_wf _ Q).
+    - intros x. rewrite in_out_keys. split.
+      + intros N0. destruct (ew PG CS x) as [w|] eqn:Q; [|contradiction N0; reflexivity].
+        apply PG_edges in Q. destruct Q as (Fe & _ & _).
+        remember CS as k eqn:Ek.
+        destruct Fe as [|m1 v1 I1|c1 Ic1|c1 Ic1| | |m1 v1 I1|m1 v1 I1| |]; try discriminate Ek.
+        * exfalso. apply (fk_ne_c csel Hsel). symmetry. exact Ek.
+        * unfold CS in Ek. inversion Ek as [E1].
+          rewrite (@NoDup_map_inj _ _ fn_type cs c1 csel Hcnd Ic1 Hsel E1). reflexivity.
+        * exfalso. destruct OO_cases as [(_ & Q & _)|(_ & Q & _)]; rewrite Q in Ek; discriminate.
+      + intros ->. assert (Q : ew PG CS (inkey csel) = Some (inw csel)).
+        { apply PG_edges. split; [apply (fe_cin csel Hsel)|]. split; [apply (pvert_c csel Hsel)|apply (pvert_inkey csel Hsel)]. }
+        rewrite Q. discriminate.
+  Qed.
+
+  Lemma PG_in_CS : g_in_keys PG CS = [OO].
+  Proof.
+    apply nodup_singleton.
+    - unfold g_in_keys, inner. destruct (lookup CS (gin PG)) as [i|] eqn:Q; [|constructor].
+      apply (wf_inner_in_nodup PG_wf _ Q).
+    - intros x. rewrite (in_in_keys x CS PG_wf). split.
+      + intros N0. destruct (ew PG x CS) as [w|] eqn:Q; [|contradiction N0; reflexivity].
+        apply PG_edges in Q. destruct Q as (Fe & _ & _).
+        remember CS as k eqn:Ek.
+        destruct Fe as [|m1 v1 I1|c1 Ic1|c1 Ic1| | |m1 v1 I1|m1 v1 I1| |]; try discriminate Ek; try reflexivity.
+        exfalso. destruct (inkey_cases c1 Ic1) as [[Q _]|[Q _]]; rewrite Q in Ek; discriminate.
+      + intros ->. assert (Q : ew PG OO CS = Some wo).
+        { apply PG_edges. split; [apply (fe_cout csel Hsel)|]. split; [apply pvert_OO|apply (pvert_c csel Hsel)]. }
+        rewrite Q. discriminate.
+  Qed.
+
+  Lemma PG_vertex_CS : g_vertex PG CS = Some (PFunc csel).
+  Proof.
+    change (g_vertex PG CS) with (vtx PG (KFunc (fn_type csel))). rewrite (PG_vtx (pvert_c csel Hsel)). apply (GG_pay_c csel Hsel).
+  Qed.
+
+  (* ---------- the supplied values ---------- *)
+  Lemma ins_nodup : NoDup (map fst ins).
+  Proof.
+    unfold ins. rewrite map_map. cbn [fst].
+    assert (E : map (fun x : string * value => KVal (fst x) T EmptyString) named =
+                map (fun m => KVal m T EmptyString) (map fst named)) by (rewrite map_map; reflexivity).
+    rewrite E. apply FinFun.Injective_map_NoDup; [|exact Hnd].
+    intros x y Q. inversion Q. reflexivity.
+  Qed.
+
+  Lemma lookup_ins_in m : lookup (KVal m T EmptyString) ins = lookup m named.
+  Proof. unfold ins. apply lookup_map_kval. Qed.
+
+  Lemma lookup_ins_other k v : lookup k ins = Some v -> exists m, k = KVal m T EmptyString.
+  Proof.
+    intros Q. apply lookup_In in Q. unfold ins in Q. apply in_map_iff in Q.
+    destruct Q as ([m v0] & E & _). inversion E. eauto.
+  Qed.
+
+  Lemma vals0_lookup k : lookup k vals0 = lookup k ins.
+  Proof.
+    unfold vals0. rewrite (lookup_fold_insert ins [] k ins_nodup). destruct (lookup k ins); reflexivity.
+  Qed.
+
+  Lemma vals0_NU : lookup NU vals0 = None.
+  Proof.
+    rewrite vals0_lookup. destruct (lookup NU ins) as [v|] eqn:Q; [|reflexivity].
+    exfalso. destruct (lookup_ins_other _ Q) as (m & E). unfold NU in E. inversion E. apply HTU. auto.
+  Qed.
+  Lemma vals0_AT : lookup AT vals0 = None.
+  Proof.
+    rewrite vals0_lookup. destruct (lookup AT ins) as [v|] eqn:Q; [|reflexivity].
+    exfalso. destruct (lookup_ins_other _ Q) as (m & E). discriminate.
+  Qed.
+  Lemma vals0_NT vn : lookup n named = Some vn -> lookup NT vals0 = Some vn.
+  Proof. intros Q. rewrite vals0_lookup. unfold NT. rewrite lookup_ins_in. exact Q. Qed.
+
+  (* ---------- running the selected converter ---------- *)
+  Variable bh : behaviour.
+  Hypothesis Honce : fn_once csel = false.
+
+  Lemma reach_conv fuel'' s x s' r :
+    lookup (inkey csel) (s_vals s) = Some x ->
+    reach u bh PG false (S fuel'') CS s = Ok (s', r) ->
+    r = inl [(inkey csel, x)] /\ s_vals s' = s_vals s /\ s_last s' = s_last s /\
+    s_trace s' = s_trace s /\ s_nexec s' = s_nexec s /\ s_world s' = s_world s.
+  Proof.
+    intros Lk. rewrite reach_S. unfold reach_body. rewrite PG_out_CS.
+    destruct (take_perm SITE_REACH_OUT [inkey csel] (s_tape (set_inprog s (CS :: s_inprog s))))
+      as [[outs t1]| | |] eqn:TP; cbn [bind]; try discriminate.
+    apply take_perm_single in TP. subst outs.
+    unfold C0213UnsatReach.classify. cbn [fold_left].
+    assert (E : lookup (inkey csel) (s_vals (set_tape (set_inprog s (CS :: s_inprog s)) t1)) = Some x) by exact Lk.
+    destruct (inkey_cases csel Hsel) as [[Q _]|[Q _]]; rewrite Q in E |- *.
+    - unfold AT in E |- *. rewrite E. intros X. inversion X. cbn. auto 10.
+    - unfold NT in E |- *. rewrite E. intros X. inversion X. cbn. auto 10.
+  Qed.
+
+  Lemma call_direct_conv s x res s' :
+    v_ty x = T ->
+    call_direct u bh false csel [(inkey csel, x)] s = Ok (res, s') ->
+    r_builderr res = false /\ s_vals s' = s_vals s /\ s_last s' = s_last s /\ s_tape s' = s_tape s /\
+    (exists o1, nth_error (r_fields res) 0 = Some o1) /\
+    s_trace s' = s_trace s ++ [EExec (fn_id csel) [mkV (v_id x) T] (r_fields res) (r_err res)].
+  Proof.
+    intros Tx. unfold call_direct. rewrite Honce.
+    destruct (Hcs csel Hsel) as (Qi & Qo & _).
+    assert (Args : map (fun fld => (fld, lookup (field_key fld) [(inkey csel, x)])) (fn_in csel) =
+                   match fn_in csel with fi :: _ => [(fi, Some x)] | [] => [] end /\
+                   (forall fi, In fi (fn_in csel) -> f_ty fi = T)).
+    { unfold inkey. destruct Qi as [Qi|Qi]; rewrite Qi; cbn [map lookup fst snd].
+      - rewrite Base.eqb_refl. split; [reflexivity|]. intros fi [<-|[]]. reflexivity.
+      - rewrite Base.eqb_refl. split; [reflexivity|]. intros fi [<-|[]]. reflexivity. }
+    destruct Args as [Args Tys]. rewrite Args.
+    assert (E : exists fi, fn_in csel = [fi]) by (destruct Qi as [Qi|Qi]; rewrite Qi; eauto).
+    destruct E as (fi & E). rewrite E in Tys |- *.
+    assert (Tf : f_ty fi = T) by (apply Tys; left; reflexivity).
+    cbn [existsb fst snd flat_map app orb]. rewrite Tf, Tx.
+    unfold assignable. rewrite Z.eqb_refl. cbn [orb negb].
+    unfold fresh_outs, zero_outs. rewrite Qo. cbn [List.length seq combine map fst snd].
+    destruct (bh (fn_id csel) (s_nexec s + 1)); intros X; inversion X; cbn; eauto 10.
+  Qed.
+
+  Lemma output_values_conv res s s' o1 :
+    nth_error (r_fields res) 0 = Some o1 ->
+    output_values csel res [OO] s = Ok s' -> s' = set_val s OO (Some o1).
+  Proof.
+    intros Nt. unfold output_values. cbn [fold_left bind].
+    destruct (Hcs csel Hsel) as (_ & Qo & _). rewrite Qo.
+    destruct OO_cases as [(Eo & Q & _)|(Eo & Q & _)]; rewrite Q, Eo.
+    - unfold OU. cbn [last_typed f_name f_ty]. cbn [String.eqb andb]. rewrite Z.eqb_refl. rewrite Nt.
+      intros X. inversion X. reflexivity.
+    - unfold NU. cbn [last_named f_name f_ty]. rewrite HnE, String.eqb_refl. cbn [negb andb]. rewrite Nt.
+      intros X. inversion X. reflexivity.
+  Qed.
+
+  (* ---------- walking the planned path ---------- *)
+  Variable vn : value.
+  Hypothesis Hvn : lookup n named = Some vn.
+
+  Lemma vn_ty : v_ty vn = T.
+  Proof. apply lookup_In in Hvn. apply (Hnm n vn Hvn). Qed.
+
+  Notation WF rec := (walk_f u bh PG false rec).
+
+  Lemma walk_f_func rec prev ft0 vs final s :
+    WF rec prev (KFunc ft0 :: vs) final s =
+    match g_vertex PG (KFunc ft0) with
+    | Some (PFunc f0) =>
+        do (s, r) <- rec (KFunc ft0) s;
+        match r with
+        | inr e => Ok (s, inr e)
+        | inl fam =>
+            do (res, s) <- call_direct u bh false f0 fam s;
+            if r_builderr res then Ok (s, inr XMissing)
+            else match r_err res with
+                 | Some e => Ok (s, inr (XConv e))
+                 | None =>
+                     do (ins, t') <- take_perm SITE_REACH_IN (g_in_keys PG (KFunc ft0)) (s_tape s);
+                     do s <- output_values f0 res ins (set_tape s t');
+                     WF rec (Some (KFunc ft0)) vs final s
+                 end
+        end
+    | _ => Panic 403%N
+    end.
+  Proof. reflexivity. Qed.
+
+  Definition good_result (r : option value + rerr) : Prop :=
+    match r with inl None => False | _ => True end.
+
+  Lemma walk_tail rec s final s' r o1 :
+    lookup OO (s_vals s) = Some o1 ->
+    WF rec (Some CS) otail final s = Ok (s', r) ->
+    s_trace s' = s_trace s /\ good_result r.
+  Proof.
+    intros Lk. unfold otail.
+    destruct OO_cases as [(Eo & Q & _)|(Eo & Q & _)]; rewrite Eo; rewrite Q in Lk.
+    - cbn [String.eqb]. unfold OU, NU, CS in *. cbn [walk_f].
+      cbn [set_last set_val set_vals s_vals s_last s_trace]. rewrite Lk.
+      rewrite lookup_insert, Base.eqb_refl. intros X. inversion X. split; [reflexivity|exact I].
+    - rewrite HnE. unfold NU, CS in *. cbn [walk_f].
+      cbn [set_last set_val set_vals s_vals s_last s_trace]. rewrite Lk.
+      intros X. inversion X. split; [reflexivity|exact I].
+  Qed.
+
+  Lemma walk_conv fuel'' prev final s s' r :
+    lookup (inkey csel) (s_vals s) = Some vn ->
+    WF (reach u bh PG false (S fuel'')) prev (CS :: otail) final s = Ok (s', r) ->
+    (exists outs err, s_trace s' = s_trace s ++ [EExec (fn_id csel) [mkV (v_id vn) T] outs err]) /\ good_result r.
+  Proof.
+    intros Lk. change (CS :: otail) with (KFunc (fn_type csel) :: otail). rewrite walk_f_func.
+    change (KFunc (fn_type csel)) with CS. rewrite PG_vertex_CS.
+    destruct (reach u bh PG false (S fuel'') CS s) as [[s4 r4]| | |] eqn:RC; cbn [bind]; try discriminate.
+    destruct (@reach_conv fuel'' s vn s4 r4 Lk RC) as (-> & V4 & L4 & T4 & _).
+    destruct (call_direct u bh false csel [(inkey csel, vn)] s4) as [[res s5]| | |] eqn:CD; cbn [bind]; try discriminate.
+    destruct (@call_direct_conv s4 vn res s5 vn_ty CD) as (Be & V5 & L5 & Tp5 & (o1 & Nt) & T5).
+    rewrite Be.
+    assert (Tr : s_trace s5 = s_trace s ++ [EExec (fn_id csel) [mkV (v_id vn) T] (r_fields res) (r_err res)]).
+    { rewrite T5, T4. reflexivity. }
+    destruct (r_err res) as [e|] eqn:Er.
+    - intros X. inversion X; subst. split; [eauto|exact I].
+    - rewrite PG_in_CS.
+      destruct (take_perm SITE_REACH_IN [OO] (s_tape s5)) as [[ins0 t6]| | |] eqn:TP; cbn [bind]; try discriminate.
+      apply take_perm_single in TP. subst ins0.
+      destruct (output_values csel res [OO] (set_tape s5 t6)) as [s6| | |] eqn:OV; cbn [bind]; try discriminate.
+      pose proof (@output_values_conv res (set_tape s5 t6) s6 o1 Nt OV) as E6.
+      intros W. apply (@walk_tail _ s6 final s' r o1) in W.
+      + destruct W as [W1 W2]. split; [|exact W2]. rewrite W1, E6. cbn [set_val set_vals s_trace set_tape]. eauto.
+      + rewrite E6. cbn [set_val set_vals s_vals]. rewrite lookup_insert, Base.eqb_refl. reflexivity.
+  Qed.
+
+  Lemma walk_path fuel'' s1 s' r :
+    s_vals s1 = vals0 ->
+    WF (reach u bh PG false (S fuel'')) None the_path None s1 = Ok (s', r) ->
+    (exists outs err, s_trace s' = s_trace s1 ++ [EExec (fn_id csel) [mkV (v_id vn) T] outs err]) /\ good_result r.
+  Proof.
+    intros V1. unfold the_path, mid.
+    assert (LN : lookup NT (s_vals s1) = Some vn) by (rewrite V1; apply (vals0_NT Hvn)).
+    destruct (inkey_cases csel Hsel) as [[Q _]|[Q _]].
+    - rewrite Q. unfold AT at 1. cbn [app]. unfold NT, AT in *. cbn [walk_f].
+      cbn [set_last set_val set_vals s_vals s_last s_trace]. rewrite LN.
+      cbn [set_last set_val set_vals s_vals s_last s_trace].
+      rewrite vn_ty. unfold assignable. rewrite Z.eqb_refl. cbn [orb].
+      cbn [set_last set_val set_vals s_vals s_last s_trace].
+      intros W. apply walk_conv in W.
+      + exact W.
+      + rewrite Q. unfold AT. cbn [set_val set_vals s_vals set_last]. rewrite lookup_insert, Base.eqb_refl. reflexivity.
+    - rewrite Q. unfold NT at 2. cbn [app]. unfold NT in *. cbn [walk_f].
+      cbn [set_last set_val set_vals s_vals s_last s_trace]. rewrite LN.
+      intros W. apply walk_conv in W.
+      + exact W.
+      + rewrite Q. unfold NT. cbn [set_last s_vals]. exact LN.
+  Qed.
 End Family.
